@@ -152,6 +152,15 @@ ID_PART = "[A-Z_][A-Z0-9_]{0,127}"
 IDENTIFIER_PLAIN = ID_PART
 IDENTIFIER_DOTTED = f"{ID_PART}(?:\\.{ID_PART})+"
 IDENTIFIER = f"{ID_PART}(?:\\.{ID_PART})*"
+
+
+def identifier_capped(k: int = 127) -> str:
+    """A (possibly qualified) name with at most 1 + k identifier characters *not counting the dots*.  The ABNF limits every
+    part to 128 characters and has no overall limit; 128 identifier characters in total is the limit this library documents
+    for a whole qualified name, used as the reference for the counted-repeat structure of the identifier rule."""
+    return "[A-Z_](?:\\.?[A-Z0-9_]){0,%d}" % k
+
+
 # Words that are not field references when they are the whole identifier: the literals true / false / null, the
 # lambda operators any / all, and the prefix operator not.
 RESERVED_WORDS = ("true", "false", "null", "any", "all", "not")
